@@ -269,7 +269,7 @@ def check_from_utf8_unchecked(b, bb, t):
         return False, ('from_utf8_unchecked is applied to `%s`; only `&src[..valid_up_to]` (an exclusive RangeTo) of '
                        'the validated buffer is known to be valid UTF-8' % (c['full'] if c else '?'))
     base_l = op_local(idx_call['args'][0])
-    base = resolve_ref(b, base_l) if base_l is not None else None
+    base = resolve_ref(b, base_l, stop_at_multi=True) if base_l is not None else None
     rng_l = op_local(idx_call['args'][1])
     vd = value_def(b, rng_l) if rng_l is not None else None
     if not vd or vd[0] != 'assign' or vd[1]['rv']['k'] != 'aggr' or not vd[1]['rv'].get('adt', '').startswith('std::ops::RangeTo'):
@@ -290,6 +290,7 @@ def check_from_utf8_unchecked(b, bb, t):
     src_l = base['l']
     # must-dataflow: valid(src, err) holds at the valid_up_to call and is not killed up to the unsafe call
     entry = False
+    param_init = None
     if 1 <= src_l <= b.argc and 1 <= err_l <= b.argc:
         # the buffer and its error are parameters: the relation is a precondition of this helper and
         # must be established by every caller at the call site
@@ -297,8 +298,27 @@ def check_from_utf8_unchecked(b, bb, t):
         if not okc:
             return False, whyc
         entry = True
-    ok, why = _utf8_valid_flow(b, src_l, err_l, vbb, bb, entry=entry)
+    elif src_l > b.argc and err_l > b.argc:
+        # `let mut remaining = src; let mut err = first_err;` over parameters with the same precondition
+        ps = _param_copied_into(b, src_l)
+        pe = _param_copied_into(b, err_l)
+        if ps is not None and pe is not None:
+            okc, whyc = _callers_establish_utf8(b, ps, pe)
+            if not okc:
+                return False, whyc
+            param_init = (ps, pe)
+    ok, why = _utf8_valid_flow(b, src_l, err_l, vbb, bb, entry=entry, param_init=param_init)
     return ok, why
+
+
+def _param_copied_into(b, l):
+    """the (never reassigned) parameter one of l's definitions copies, if any"""
+    for bi, si, kind, s in b.defs.get(l, []):
+        if kind == 'assign' and s['rv']['k'] == 'use':
+            pl = op_place(s['rv']['op'])
+            if pl is not None and not pl['p'] and 1 <= pl['l'] <= b.argc and not b.defs.get(pl['l']):
+                return pl['l']
+    return None
 
 
 def _callers_establish_utf8(b, src_l, err_l):
@@ -344,14 +364,14 @@ def _callers_establish_utf8(b, src_l, err_l):
     return True, ''
 
 
-def _utf8_valid_flow(b, src_l, err_l, vbb, ubb, entry=False, at_only=False):
+def _utf8_valid_flow(b, src_l, err_l, vbb, ubb, entry=False, at_only=False, param_init=None):
     """forward must-analysis: V = `err` is the Err payload of from_utf8(src) for the current src"""
     # sources: calls from_utf8(&*src)
     from_utf8_res = {}
     for bb, t in b.calls():
         c = callee_of(t)
         if c and c['path'] == 'std::str::from_utf8':
-            pl = resolve_ref(b, op_local(t['args'][0])) if op_local(t['args'][0]) is not None else None
+            pl = resolve_ref(b, op_local(t['args'][0]), stop_at_multi=True) if op_local(t['args'][0]) is not None else None
             if pl is not None and pl['l'] == src_l and all(e['k'] == 'deref' for e in pl['p']):
                 from_utf8_res[t['dest']['l']] = bb
     # payload locals: x = copy (_r as Err).0 (and copies of them)
@@ -366,8 +386,18 @@ def _utf8_valid_flow(b, src_l, err_l, vbb, ubb, entry=False, at_only=False):
             dl = d['l']
             rv = s['rv']
             if dl == src_l:
-                st = (False, st[1])          # src reassigned: err no longer describes it
+                st = (False, set())          # src reassigned: neither err nor earlier results describe it
+                if param_init and rv['k'] == 'use':
+                    pl = op_place(rv['op'])
+                    if pl is not None and not pl['p'] and pl['l'] == param_init[0]:
+                        # the buffer is (again) the parameter the error parameter describes
+                        st = (False, st[1] | {'@param'})
                 continue
+            if param_init and dl == err_l and rv['k'] == 'use':
+                pl = op_place(rv['op'])
+                if pl is not None and not pl['p'] and pl['l'] == param_init[1]:
+                    st = ('@param' in st[1], st[1])
+                    continue
             if rv['k'] == 'use':
                 pl = op_place(rv['op'])
                 if pl is not None:
@@ -410,9 +440,8 @@ def _utf8_valid_flow(b, src_l, err_l, vbb, ubb, entry=False, at_only=False):
         # src reassignment invalidates result locals too
         out = transfer(bi, (st[0], set(st[1])))
         blk = b.blocks[bi]
-        # if src assigned anywhere in block, drop result locals computed before it (conservative)
-        if any(s['k'] == 'assign' and not s['pl']['p'] and s['pl']['l'] == src_l for s in blk['st']):
-            # keep only results produced by this block's terminator
+        if any(s['k'] == 'assign' and not s['pl']['p'] and s['pl']['l'] == src_l for s in blk['st']) and not param_init:
+            # src assigned in this block: keep only results produced by this block's terminator
             keep = set()
             t = blk['term']
             if t['k'] == 'call' and not t['dest']['p'] and t['dest']['l'] in from_utf8_res \
